@@ -81,6 +81,9 @@ func outcomeClass(w *World) string {
 // to run, so that the driver has the schedule if the worker process dies.
 var curFile *os.File
 
+// curProp is the property id of the running check (generic violations are reported under it).
+var curProp string
+
 func noteCur(sc *Scenario, prefix []int) {
 	if curFile == nil {
 		return
@@ -190,7 +193,7 @@ func (e *Explorer) check(w *World, cost int) {
 func genericCheck(w *World) []Violation {
 	var vs []Violation
 	if w.Outcome == "deadlock" {
-		vs = append(vs, Violation{Prop: "C20", Sig: "deadlock:" + strings.Join(w.Blocked, ","), Msg: "no enabled thread, threads blocked on shim operations"})
+		vs = append(vs, Violation{Prop: curProp, Sig: "deadlock:" + blockedKinds(w, ""), Msg: fmt.Sprintf("threads wait for mutexes that are never released: %v", w.Blocked)})
 	}
 	return vs
 }
